@@ -12,7 +12,7 @@
 #       fail at the same k; allocation events (sizes!) are part of the comparison
 #   (4) API k-sweep (harness/wb_c20api.c): no crash / sanitizer report / hang, clean error
 #       codes, recovery, nng_fini balances the accounting allocator to zero
-import concurrent.futures, json, os, random, re, subprocess, sys, time
+import concurrent.futures, hashlib, json, os, random, re, subprocess, sys, time
 
 if __name__ == "__main__":
     sys.path.insert(0, os.path.join(os.path.dirname(os.path.dirname(os.path.abspath(__file__))), "lib"))
@@ -324,7 +324,9 @@ def gen_idmap_burst(rng):
 URLS = ["tcp://127.0.0.1:4000", "tcp://[::1]:80/a/../b?x=1#f", "ws://user@host.example:8080/some/path", "ipc:///tmp/x.ipc",
         "inproc://name", "http://www.example.com/", "bogus://x", "tcp://host:99999", "tcp:/nope", "ws://h/%zz",
         "tcp://127.0.0.1:1/" + "p" * 110, "tcp://127.0.0.1:1/" + "p" * 111, "tcp://127.0.0.1:1/" + "p" * 112,
-        "http://h:80/" + "q" * 200 + "?a=b", "ipc:///" + "d/" * 80, "ws://h:1/" + "%41" * 60, "http://h:80/" + "a/../" * 40]
+        "http://h:80/" + "q" * 200 + "?a=b", "ipc:///" + "d/" * 80, "ws://h:1/" + "%41" * 60, "http://h:80/" + "a/../" * 40,
+        # long AND rejected after the heap copy was made: the error path must free it
+        "http://h:80/" + "a" * 150 + "%zz", "tcp://host:99999/" + "x" * 130, "ws://h:1/" + "b" * 140 + "%c0%af", "tcp://[::1/" + "y" * 140]
 
 
 def gen_url(rng):
@@ -376,6 +378,7 @@ def wb_spec_check(case, out):
     Returns None or (op index, text)."""
     live = {}
     last_state = {}
+    topics = set()
     ops = [l for l in case if not l.startswith(("oracle", "#"))]
     if len(out) < len(ops):
         return (len(out), "output ends early (crash / hang?)")
@@ -409,6 +412,20 @@ def wb_spec_check(case, out):
         state = m.group(0) if m else None
         rvm = re.match(r"rv=(\d+)", obs)
         rv = int(rvm.group(1)) if rvm else None
+        # SUB: the set of subscriptions as the API shows it (a refused subscribe changes nothing)
+        if op == "sopen":
+            topics = set()
+        elif op == "ssub" and rv == 0:
+            topics.add(t[1])
+        elif op == "sunsub":
+            if (rv == 0) != (t[1] in topics):
+                return (k, "unsubscribe of %s returned %s but the topic was %ssubscribed" % (t[1], rv, "" if t[1] in topics else "not "))
+            topics.discard(t[1])
+        elif op == "sprobe":
+            has = obs.strip() == "has=1"
+            if has != (t[1] in topics):
+                return (k, "topic %s is %ssubscribed although the successful calls so far say otherwise "
+                           "(a failed subscribe must leave the subscriptions unchanged)" % (t[1], "" if has else "not "))
         if op == "pullup" and rv == 0 and obj in last_state:
             # header ++ body must survive (with or without a refused allocation)
             old = re.match(r"hdr=(\S+) body=(\S+)", last_state[obj])
@@ -430,15 +447,6 @@ def wb_spec_check(case, out):
             elif op not in ("alloc", "dup", "qinit", "uparse", "uclone", "unique", "pullup") and state is not None \
                     and obj in last_state and last_state[obj] != state:
                 return (k, "NNG_ENOMEM but the object changed: %s -> %s" % (last_state[obj], state))
-        if op == "pullup" and rv == 0 and obj in last_state:
-            # header ++ body must survive (with or without a refused allocation)
-            old = re.match(r"hdr=(\S+) body=(\S+)", last_state[obj])
-            new = re.match(r".*hdr=(\S+) body=(\S+)", obs)
-            if old and new:
-                exp = ("" if old.group(1) == "-" else old.group(1)) + ("" if old.group(2) == "-" else old.group(2))
-                got = "" if new.group(2) == "-" else new.group(2)
-                if new.group(1) != "-" or got != exp:
-                    return (k, "nni_msg_pull_up returned a message that is not header++body (header lost)")
         if state is not None:
             last_state[obj] = state
         if op == "end":
@@ -474,6 +482,32 @@ def with_oracle(case, bits):
     return ["oracle %s" % bits] + case
 
 
+def source_flags():
+    """the forms of the source, read from the tree under test by the same drop-in that writes Gen/Consts.v"""
+    out = {}
+    miss = []
+
+    def src(pth):
+        return open(os.path.join(REPO, pth)).read()
+
+    def define_int(pth, name):
+        m = re.search(r"#define\s+%s\s+\(?\s*(0x[0-9a-fA-F]+|\d+)" % re.escape(name), src(pth))
+        return int(m.group(1), 0) if m else 0
+
+    def find_int(pth, regex, what):
+        m = re.search(regex, src(pth), re.S)
+        return int(m.group(1), 0) if m else 0
+    g = {"REPO": REPO, "src": src, "missing": miss, "extra_text": [], "re": re, "os": os, "items": [],
+         "N": lambda *a: None, "Nat": lambda *a: None, "define_int": define_int, "find_int": find_int}
+    p = os.path.join(VERIF, "tools", "gen_consts_d", "c20_flags.py")
+    exec(compile(open(p).read(), p, "exec"), g)
+    for l in g["extra_text"]:
+        m = re.match(r"Definition (\w+) : bool := (\w+)", l)
+        if m:
+            out[m.group(1)] = (m.group(2) == "true")
+    return out
+
+
 def run_wb(rep, tier, rng, bdir, replay_case=None):
     """model and implementation on the same scripts with the same oracle; every k"""
     cbin, e = wb_build(bdir, "wb_allocfail.c")
@@ -486,9 +520,13 @@ def run_wb(rep, tier, rng, bdir, replay_case=None):
         raise RuntimeError("could not read struct sizes from the library: %r %s" % (so, se[-300:]))
     rep.cov["struct_sizes"] = sizes
 
+    sf = source_flags()
+    margs = ["--flags", "%d%d" % (sf.get("URL_STRDUP_CHECKED", False), sf.get("PULL_UP_INSERT_CHECKED", False))]
+    rep.cov["source_form_flags_model"] = sf
+
     def both(cases):
         ci, crash = run_cases_resilient(cbin, cases, timeout=600)
-        mi, mcrash = run_cases(mbin, [[sizes] + c for c in cases], timeout=600)
+        mi, mcrash = run_cases(mbin, [[sizes] + c for c in cases], timeout=600, args=margs)
         return ci, crash, mi, mcrash
 
     if replay_case is not None:
@@ -560,7 +598,7 @@ def run_wb(rep, tier, rng, bdir, replay_case=None):
             key = None
             if "header lost" in sc[1]:
                 key = "pull-up-drops-header"
-            if vx in vcrash and first < len(mo) and mo[first].startswith("CRASH") and "uparse" in " ".join(v):
+            if vx in vcrash and len(co) < len(mo) and mo[len(co)].startswith("CRASH") and "uparse" in " ".join(v):
                 key = "url-strdup-unchecked"      # the faithful model predicts the NULL dereference
                 sc = (sc[0], "nng_url_parse dereferences the NULL result of an unchecked nni_strdup: " + san_summary(vcrash[vx][1]))
             if key in seen_keys:
@@ -710,27 +748,38 @@ def run(tier, seed, replay=None):
         "the k-sweep over API programs is fault enumeration: one failure at a time, allocation order of background "
         "threads varies between runs; a k that was not reached in one run may be reached in another",
     ]
-    ok, msg = gen_consts("c20")
-    if not ok:
-        p = rep.replay_file("gen_consts.txt", msg)
-        rep.violation(p, "gen_consts: pattern(s) no longer found: " + msg, nofail=True)
-        return rep.finish()
-    cb = coq_build("Properties_C20")
+    def read_flags():
+        ctxt = open(os.path.join(COQ, "Gen", "Consts.v")).read()
+        fl = {}
+        for n in ("URL_STRDUP_CHECKED", "WS_FINISH_RELOCK_FIXED", "PULL_UP_INSERT_CHECKED", "ALLOC_SITES_COUNT"):
+            m = re.search(r"Definition %s : \w+ := (\w+)" % n, ctxt)
+            fl[n] = m.group(1) if m else "?"
+        fl["_sites_digest"] = hashlib.sha1("".join(re.findall(r"mkAllocSite[^\n]*", ctxt)).encode()).hexdigest()[:12]
+        return fl
+
+    # Gen/Consts.v is shared with the other checks: a concurrent run for ANOTHER tree
+    # (NNGV_REPO) may rewrite it between our generation and our builds; detect and redo
+    for attempt in range(4):
+        ok, msg = gen_consts("c20")
+        if not ok:
+            p = rep.replay_file("gen_consts.txt", msg)
+            rep.violation(p, "gen_consts: pattern(s) no longer found: " + msg, nofail=True)
+            return rep.finish()
+        flags = read_flags()
+        cb = coq_build("Properties_C20")
+        model_build("c20")
+        if read_flags() == flags:
+            break
     rep.proof_cov(cb, "make Props/Properties_C20.vo; coqc -Q . NngV Props/Properties_C20.v")
     gate = coq_gate()
     if not cb["ok"] or gate:
         cb.setdefault("failed_at", []).extend(gate)
         proof_broken_report(rep, cb, "Properties_C20 does not check (or the gate found a forbidden word)")
-    flags = {}
-    ctxt = open(os.path.join(COQ, "Gen", "Consts.v")).read()
-    for n in ("URL_STRDUP_CHECKED", "WS_FINISH_RELOCK_FIXED", "PULL_UP_INSERT_CHECKED"):
-        m = re.search(r"Definition %s : bool := (\w+)" % n, ctxt)
-        flags[n] = m.group(1) if m else "?"
+    flags.pop("_sites_digest", None)
     rep.cov["source_form_flags"] = flags
     rep.cov["rule"] = ("WB: distinct (op, ledger shape, rv) classes over all variants (every k of every case + multi-failure "
                        "oracles); API: one process per (program, k), every k up to the allocation count of the program")
     sites = run_sites(rep)
-    model_build("c20")
     bdir, e = nng_build("asan")
     if bdir is None:
         p = rep.replay_file("nng_build.txt", e[-4000:])
